@@ -1926,3 +1926,22 @@ V(id='c05-le-nan-guard-dropped', prop='C05', file='mpmath/libmp/libmpf.py',
 V(id='c05-cmp-inf-vs-inf', prop='C05', file='mpmath/libmp/libmpf.py',
   old="def mpf_ge(s, t):\n    if s == fnan or t == fnan:\n        return False\n    return mpf_cmp(s, t) >= 0", new="def mpf_ge(s, t):\n    if s == fnan or t == fnan:\n        return False\n    return mpf_cmp(s, t) > 0",
   expect='fire:G-R5:mpf_ge')
+
+# ---- C14 C-R16 endpoint classes ----
+V(id='c14-mul-nan-upper-not-fixed', prop='C14', file='mpmath/libmp/libmpi.py',
+  old="            a = mpf_mul(sa, ta, prec, round_floor)\n            b = mpf_mul(sb, tb, prec, round_ceiling)\n            if a == fnan: a = fzero\n            if b == fnan: b = finf",
+  new="            a = mpf_mul(sa, ta, prec, round_floor)\n            b = mpf_mul(sb, tb, prec, round_ceiling)\n            if a == fnan: a = fzero",
+  expect='silent')   # this fix-up is dead for valid intervals: 0 * inf cannot pair up in the positive * positive case
+V(id='c14-mul-general-case-nan', prop='C14', file='mpmath/libmp/libmpi.py',
+  old="        if fnan in cases:\n            a, b = (fninf, finf)\n        else:\n            a, b = mpf_min_max(cases)\n            a = mpf_pos(a, prec, round_floor)\n            b = mpf_pos(b, prec, round_ceiling)",
+  new="        a, b = mpf_min_max(cases)\n        a = mpf_pos(a, prec, round_floor)\n        b = mpf_pos(b, prec, round_ceiling)",
+  expect='fire:C-R16:mpi_mul')
+V(id='c14-mul-zero-times-unbounded', prop='C14', file='mpmath/libmp/libmpi.py',
+  old="        if ta == fninf or tb == finf:\n            return fninf, finf\n        return fzero, fzero\n    if tas == tbs == 0:",
+  new="        return fzero, fzero\n    if tas == tbs == 0:", expect='silent')
+V(id='c14-div-positive-by-zero-touching', prop='C14', file='mpmath/libmp/libmpi.py',
+  old="        if sas >= 0:\n            a = mpf_div(sa, tb, prec, round_floor)\n            b = finf", new="        if sas >= 0:\n            a = mpf_div(sa, tb, prec, round_floor)\n            b = mpf_div(sb, tb, prec, round_ceiling)",
+  expect='fire:C-R16:mpi_div')
+V(id='c14-div-straddling-zero', prop='C14', file='mpmath/libmp/libmpi.py',
+  old="    if tas < 0 and tbs > 0:\n        return fninf, finf\n    # Assume denominator to be nonnegative", new="    # Assume denominator to be nonnegative",
+  expect='fire:C-R16:mpi_div')
